@@ -706,6 +706,10 @@ int vorbis_encode_setup_init(vorbis_info *vi){
   setup=(ve_setup_data_template *)hi->setup;
   if(setup==NULL)return(OV_EINVAL);
 
+  /* the set-up is final: running the stages a second time would
+     allocate every table again on top of (and leak) the first set */
+  if(hi->set_in_stone)return(OV_EINVAL);
+
   hi->set_in_stone=1;
   /* choose block sizes from configured sizes as well as paying
      attention to long_block_p and short_block_p.  If the configured
